@@ -97,6 +97,16 @@ def oracle(p, run, obs):
     kind = obs["kind"]
     done = kind in ("scenarioComplete", "terminatedByMonitor", "simulationTerminationCondition", "timeLimit", "terminatedByBehavior")
     top_mons = set(p["scenarios"][0]["monitors"])
+    sub_tc = {idx: cnd for sc in p["scenarios"][1:] for idx, cnd in sc.get("termsim", [])}
+    top0 = p["scenarios"][0]
+    # documented: the guards of the top-level scenario are checked when the simulation starts (preconditions first)
+    if not all(tab_at(run["tab"], x, 0) for x in top0["pre"] + top0["inv"]):
+        pre_bad = not all(tab_at(run["tab"], x, 0) for x in top0["pre"])
+        want = ("PreconditionViolation" if pre_bad else "InvariantViolation") if run.get("raise_gv", True) else "rejected"
+        if kind not in (want, "sceneRejected"):
+            bad.append(("guard-at-start", f"a guard of the top-level scenario is false when the simulation starts: documented {want}, got {kind}",
+                        dict(expected=want)))
+        return bad
     i = 0
     # initial updateObjects
     init = ev[:nobj]
@@ -154,7 +164,7 @@ def oracle(p, run, obs):
                 ended = (2, "terminate in a top-level monitor")
             if tag == "TW" and e[1] == 0 and tab_at(run["tab"], p["scenarios"][0]["termwhen"][e[2]], t):
                 ended = (1, "a true terminate-when condition")
-            if tag == "TC" and tab_at(run["tab"], p["termsim"][e[1]], t):
+            if tag == "TC" and tab_at(run["tab"], sub_tc[e[1]] if e[1] >= 100 else p["termsim"][e[1]], t):
                 ended = (3, "a true terminate-simulation-when condition")
                 if pre[k + 1:] and not all(x[0] == "R" and x[1] in p["rec_final"] for x in pre[k + 1:]):
                     bad.append(("after-termination", f"events after a true `terminate simulation when` at step {t}", dict(step=t)))
@@ -176,7 +186,7 @@ def oracle(p, run, obs):
         if got != want:
             bad.append(("order", f"after the actions of step {t}: expected step, clock, updates; got {got}", dict(step=t)))
         # per-step records
-        recs = [e[1] for e in pre if e[0] == "R"]
+        recs = [e[1] for e in pre if e[0] == "R" and e[1] < 100]
         wantr = (p["rec_init"] if t == 0 else []) + p["records"]
         if recs != wantr:
             bad.append(("records", f"records evaluated at step {t}: {recs}, expected {wantr}", dict(step=t)))
@@ -390,11 +400,86 @@ def fam_requirements(quick):
     return out
 
 
+def fam_silent(quick):
+    """a sub-scenario stating `record` and `terminate simulation when` ends (own limit in steps / seconds, terminate when,
+    compose block finishing, terminate, `do ... for`, `do ... until`) while the scenario that invoked it goes on WITHOUT
+    another `do` (wait / wait for / wait until); the condition becomes true never / while it runs / in the step it
+    stopped / later.  Documented: samples exactly for the steps the sub-scenario executed, the condition only counts
+    while it runs.  (name, program, table, timestep, max_steps, ("silent", (kind, time), {record: sample times}))"""
+    out = []
+    forever = [("WH", True, [("WT",)])]
+    for level in ("main", "sub"):
+        for end in ("limit", "limit-s", "when", "compose", "terminate", "for", "until"):
+            for n in (1, 2):
+                for s0 in (0, 1):
+                    for tau_k in ("never", "running", "stop-step", "later"):
+                        hsh = int(common.sha(json.dumps([level, end, n, s0, tau_k]))[:6], 16)
+                        if quick and end in ("limit-s", "terminate", "until") and hsh % 2:
+                            continue
+                        m = 2 + hsh % 2
+                        cont_k = ("wait", "waitfor", "waituntil")[(hsh >> 3) % 3]
+                        ts = 0.5 if end == "limit-s" else 1
+                        tau = dict(never=None, running=s0 + n - 1, later=s0 + n + 1)[tau_k] if tau_k != "stop-step" else s0 + n
+                        H = 12
+                        row_end = [t >= s0 + n for t in range(H + 2)]           # row 0: ends the sub-scenario (when / until)
+                        row_tc = [tau is not None and t >= tau for t in range(H + 2)]   # row 1
+                        row_cont = [t >= s0 + n + m for t in range(H + 2)]      # row 2: wait until
+                        tab = [row_end, row_tc, row_cont]
+                        p = cp.empty_program(1)
+                        k = 1 if level == "main" else 2                  # class of the recorded sub-scenario
+                        rec = dict(pre=[], inv=[], limit=None, termwhen=[], monitors=[], compose=list(forever), reqs=[],
+                                   records=[100 * k], termsim=[(100 * k, 1)])
+                        inv = ("DS", [k])
+                        if end == "limit":
+                            rec["limit"] = (n, "steps")
+                        elif end == "limit-s":
+                            rec["limit"] = (n * 0.5, "seconds")
+                        elif end == "when":
+                            rec["termwhen"] = [0]
+                        elif end == "compose":
+                            rec["compose"] = [("WT",)] * n
+                        elif end == "terminate":
+                            rec["compose"] = [("WT",)] * n + [("MK", 90), ("TE",)]
+                        elif end == "for":
+                            inv = ("DSF", [k], n, "steps")
+                        else:
+                            inv = ("DSU", [k], 0)
+                        cont = {"wait": [("WT",)] * m, "waitfor": [("WF", m, "steps")], "waituntil": [("WU", 2)]}[cont_k]
+                        parent = [("WT",)] * s0 + [inv, ("MK", 1)] + cont
+                        if level == "main":
+                            p["scenarios"][0]["compose"] = parent
+                            p["scenarios"].append(rec)
+                        else:
+                            p["scenarios"][0]["compose"] = [("DS", [1])]
+                            p["scenarios"].append(dict(pre=[], inv=[], limit=None, termwhen=[], monitors=[], compose=parent, reqs=[],
+                                                       records=[], termsim=[]))
+                            p["scenarios"].append(rec)
+                        if tau is not None and tau <= s0 + n - 1:
+                            want = ("simulationTerminationCondition", max(tau, s0))
+                            times = list(range(s0, max(tau, s0) + 1))
+                        else:
+                            want = ("scenarioComplete", s0 + n + m)
+                            times = list(range(s0, s0 + n))
+                        out.append((f"silent {level} {end} n={n} s0={s0} tc={tau_k} {cont_k}", p, tab, ts, H, ("silent", want, {f"r{100 * k}": times})))
+    return out
+
+
 # ------------------------------------------------------------------ main
-def compare(c, name, p, src, run, obs, mod, fam_expect=None):
-    """correspondence + oracle for one run; returns True when everything agrees"""
+def compare(c, name, p, src, run, obs, mod, fam_expect=None, run_index=0, history=None):
+    """correspondence + oracle for one run; returns True when everything agrees.  run_index / history: position of the
+    run among the simulations made from the same compiled Scenario object, and the runs before it."""
     ok = True
-    case = dict(name=name, program=p, src=src, run=run)
+    case = dict(name=name, program=p, src=src, run=run, run_index=run_index, history=history or [])
+    if obs.get("first_attempt"):
+        prev = (history or [None])[-1] or {}
+        ptab = prev.get("tab", [])
+        top0 = p["scenarios"][0]
+        prev_guard_failed = bool(history) and not all(tab_at(ptab, x, 0) for x in top0["pre"] + top0["inv"])
+        c.violation("history-dead-scenario", f"simulation {run_index} of one compiled scenario failed with {obs['first_attempt']} although a fresh "
+                    "compilation runs it: an earlier simulation left the scenario object unusable",
+                    dict(case=case, first_attempt=obs["first_attempt"], previous_run_top_level_guard_failed=prev_guard_failed))
+        ok = False
+    shape27 = cp.f27_shape(p, run_index)
     if obs["kind"] == "hang" or mod["kind"] in ("stuck", "error", "driver-error"):
         c.violation("harness", f"case outside the fragment: impl={obs['kind']} model={mod['kind']}", dict(case=case, impl=obs, model=mod))
         return False
@@ -409,6 +494,15 @@ def compare(c, name, p, src, run, obs, mod, fam_expect=None):
             a, b = obs["events"], mod["events"]
             n = next((i for i in range(min(len(a), len(b))) if a[i] != b[i]), min(len(a), len(b)))
             first = dict(index=n, impl=a[n:n + 3], model=b[n:n + 3])
+        extra = bool(first and first["impl"] and first["impl"][0][0] in ("R", "TC") and first["impl"][0][1] >= 100)
+        if shape27 and extra:
+            # a stopped sub-scenario's record / condition evaluated: finding F27 (the other oracles would only repeat it)
+            c.violation("stale-subscenario", f"a record / `terminate simulation when` of a sub-scenario that is no longer running was evaluated "
+                        f"({first['impl'][0]} at event {first['index']}; shape {shape27})",
+                        dict(case=case, f27_shape=shape27, impl_extra_sub_event=True, first_event_difference=first,
+                             impl={k: obs.get(k) for k in ("kind", "reason", "time", "records")}, model={k: mod.get(k) for k in ("kind", "time")},
+                             impl_events=obs["events"], model_events=mod["events"]))
+            return False
         c.violation("correspondence", f"implementation and DynCore model differ on {diff}",
                     dict(case=case, differs=diff, first_event_difference=first,
                          impl={k: obs.get(k) for k in ("kind", "reason", "time", "traj", "actions", "msg")},
@@ -422,7 +516,18 @@ def compare(c, name, p, src, run, obs, mod, fam_expect=None):
         ok = False
         c.violation(kind, msg, dict(case=case, impl={k: obs.get(k) for k in ("kind", "reason", "time", "traj", "actions")},
                                     events=obs["events"], **extra))
-    if fam_expect is not None and fam_expect[0] == "outcome":
+    if fam_expect is not None and fam_expect[0] == "silent":
+        _, want, wrec = fam_expect
+        got = (obs["kind"], obs.get("time"))
+        grec = {k: [x[0] for x in v] for k, v in (obs.get("records") or {}).items() if isinstance(v, list)}
+        grec = {k: grec.get(k, []) for k in wrec}
+        if got != tuple(want) or grec != wrec:
+            ok = False
+            c.violation("stopped-scenario-silent", f"{name}: documented end {tuple(want)} with samples {wrec}; got {got} with samples {grec} "
+                        "(a scenario that has stopped contributes no record and no condition)",
+                        dict(case=case, expected=want, expected_samples=wrec, impl_kind=obs["kind"], impl_time=obs.get("time"), impl_samples=grec,
+                             events=obs["events"]))
+    elif fam_expect is not None and fam_expect[0] == "outcome":
         want = tuple(fam_expect[1])
         got = (obs["kind"], obs.get("time")) if want[1] is not None else (obs["kind"], None)
         if got == ("sceneRejected", None):      # rejected while sampling the scene or during the simulation: the model pins which
@@ -464,6 +569,8 @@ def main():
     if c.replay:
         body = json.load(open(c.replay))
         cs = body["case"]["case"]
+        for h in cs.get("history", []):          # the simulations made before it from the same compiled scenario
+            cases.append((cs["name"] + "-history", cs["program"], cp.program_src(cs["program"]), h, None))
         cases.append((cs["name"], cs["program"], cp.program_src(cs["program"]), cs["run"], None))
     else:
         for name, p, ts, H, exp, end in fam_programs():
@@ -472,7 +579,11 @@ def main():
             cases.append((name, p, cp.program_src(p), dict(tab=tab, perms=[], max_steps=H, timestep=ts), (exp, end)))
         for name, p, tab, ts, H, expect in fam_requirements(quick):
             cases.append((name, p, cp.program_src(p), dict(tab=tab, perms=[], max_steps=H, timestep=ts), expect))
-        nprog = 160 if quick else 6000
+        for name, p, tab, ts, H, expect in fam_silent(quick):
+            # a history of three simulations from one compiled scenario: the scene again, then a fresh scene
+            for scene in ("new", "same", "new"):
+                cases.append((name, p, cp.program_src(p), dict(tab=tab, perms=[], max_steps=H, timestep=ts, scene=scene), expect))
+        nprog = int(os.environ.get('VERIF_C12_N', 160 if quick else 6000))
         for n in range(nprog):
             g = cp.Gen(random.Random(rng.getrandbits(64)))
             p, ts = g.program()
@@ -489,7 +600,12 @@ def main():
                 ms = g.rng.choice([None, 3, 5, 6, 8]) if r else 8
                 if ms is None and not p["scenarios"][0]["limit"]:
                     ms = 7
-                cases.append((f"random-{n}-{r}", p, src, dict(tab=tab, perms=perms, max_steps=ms, timestep=ts), None))
+                # history dimension: the runs of a program are successive simulations from ONE compiled scenario, on the
+                # same scene or a fresh one, with their own time step (when durations are in seconds), step limit,
+                # table (guard outcomes) and raiseGuardViolations
+                rts = ts if (r == 0 or not g.seconds) else g.rng.choice([0.5, 0.1, 0.25, 2, 1])
+                cases.append((f"random-{n}-{r}", p, src, dict(tab=tab, perms=perms, max_steps=ms, timestep=rts, scene=("same" if r == 1 else "new"),
+                                                               raise_gv=(r != 3)), None))
 
     # which behaviour does the tree have for `terminate` in a monitor of a sub-scenario?  (quirk switch
     # of the model; the oracle reports the undocumented behaviour whenever a generated case meets it)
@@ -542,8 +658,9 @@ scenario Main():
         if "compile_error" in res:
             c.violation("harness", "generated program does not compile", dict(src=j["src"], error=res["compile_error"]))
             continue
-        for i, obs in zip(j["_idxs"], res["runs"]):
+        for ri, (i, obs) in enumerate(zip(j["_idxs"], res["runs"])):
             name, p, src, run, fe = cases[i]
+            hist = [cases[x][3] for x in j["_idxs"][:ri]]
             if i == sub_probe_idx:
                 # documented: S1 runs steps 0,1, stops at step 2 (condition true), Main logs its mark and ends at step 3
                 good = obs["kind"] == "scenarioComplete" and obs.get("time") == 3 and ["S", 0, 1] in obs["events"]
@@ -555,6 +672,8 @@ scenario Main():
                                      statements_in_sub_scenario_setup=True))
                 continue
             mod = models[i]
+            if not run.get("raise_gv", True) and mod["kind"] in ("PreconditionViolation", "InvariantViolation"):
+                mod = dict(mod, kind="rejected")
             classes = {e[0] for e in obs["events"]}
             nontrivial = obs.get("time", 0) >= 1 and len(classes) >= 3
             c.count((src, run), nontrivial=nontrivial)
@@ -568,7 +687,8 @@ scenario Main():
             c.hist(f"timestep:{run['timestep']}")
             if not obs.get("veneer_clean", True):
                 c.violation("harness", "veneer state not clean after a simulation", dict(case=dict(name=name, program=p, src=src, run=run)))
-            if not compare(c, name, p, src, run, obs, mod, fe):
+            c.hist(f"history:run{min(ri, 3)}{'+' if ri >= 3 else ''}:{run.get('scene', 'same')}")
+            if not compare(c, name, p, src, run, obs, mod, fe, run_index=ri, history=hist):
                 nfail += 1
             elif nontrivial:
                 c.sample(dict(name=name, src=src, kind=obs["kind"], steps=obs.get("time"), events=len(obs["events"])), limit=4)
